@@ -50,6 +50,7 @@ type Event struct {
 	CL     int64    `json:"cl,omitempty"`
 	Body   string   `json:"body,omitempty"`
 	Proto  string   `json:"proto,omitempty"`
+	SNI    string   `json:"sni,omitempty"`    // "Req": server name of the TLS handshake of the connection ("" without TLS / SNI)
 	Origin string   `json:"origin,omitempty"` // "Connect": local address of the proxy's connection to the origin (= the origin's RemoteAddr)
 }
 
@@ -90,6 +91,7 @@ type HTTPTarget struct {
 	rec  *Recorder
 	mu   sync.Mutex
 	beh  Behaviour
+	cb   func(uri string)
 	stop chan struct{}
 }
 
@@ -98,6 +100,10 @@ func (t *HTTPTarget) Addr() string { return t.Srv.Listener.Addr().String() }
 
 // Set programs the answer for the following requests.
 func (t *HTTPTarget) Set(b Behaviour) { t.mu.Lock(); t.beh = b; t.mu.Unlock() }
+
+// OnReq installs a callback invoked (on the serving goroutine) for every request after it has been recorded.
+func (t *HTTPTarget) OnReq(f func(uri string)) { t.mu.Lock(); t.cb = f; t.mu.Unlock() }
+func (t *HTTPTarget) onReq() func(string)      { t.mu.Lock(); defer t.mu.Unlock(); return t.cb }
 
 func (t *HTTPTarget) behaviour() Behaviour { t.mu.Lock(); defer t.mu.Unlock(); return t.beh }
 
@@ -133,6 +139,9 @@ func (t *HTTPTarget) handle(w http.ResponseWriter, r *http.Request) {
 	body, _ := io.ReadAll(r.Body)
 	e := Event{Ev: "Req", Server: t.Name, Conn: r.RemoteAddr, TLS: r.TLS != nil, Method: r.Method, URI: r.RequestURI,
 		Host: r.Host, TE: r.TransferEncoding, CL: r.ContentLength, Body: string(body), Proto: r.Proto}
+	if r.TLS != nil {
+		e.SNI = r.TLS.ServerName
+	}
 	names := make([]string, 0, len(r.Header))
 	for n := range r.Header {
 		names = append(names, n)
@@ -142,6 +151,9 @@ func (t *HTTPTarget) handle(w http.ResponseWriter, r *http.Request) {
 		e.Hdr = append(e.Hdr, Header{N: n, V: append([]string{}, r.Header[n]...)})
 	}
 	t.rec.add(e)
+	if cb := t.onReq(); cb != nil {
+		cb(r.RequestURI)
+	}
 	b := t.behaviour()
 	// a request may carry its own answer: /__beh/<kind>/<status>/...
 	if rest, ok := strings.CutPrefix(r.URL.Path, "/__beh/"); ok {
@@ -181,6 +193,38 @@ func (t *HTTPTarget) handle(w http.ResponseWriter, r *http.Request) {
 			_ = tcp.SetLinger(0) // close sends RST
 		}
 		_ = nc.Close()
+	case "resetbody":
+		// status line, headers and a part of the declared body, then the connection is RESET
+		st := b.Status
+		if st == 0 {
+			st = 200
+		}
+		w.Header().Set("Content-Length", "64")
+		w.WriteHeader(st)
+		_, _ = io.WriteString(w, "short")
+		if f, ok := w.(http.Flusher); ok {
+			f.Flush()
+		}
+		c, _, err := w.(http.Hijacker).Hijack()
+		if err != nil {
+			panic(err)
+		}
+		var nc net.Conn = c
+		if tc, ok := c.(*tls.Conn); ok {
+			nc = tc.NetConn()
+		}
+		if tcp, ok := nc.(*net.TCPConn); ok {
+			_ = tcp.SetLinger(0)
+		}
+		_ = nc.Close()
+	case "delay":
+		// a complete answer, but not at once (the exchange is in flight for a while)
+		select {
+		case <-time.After(150 * time.Millisecond):
+		case <-t.stop:
+		}
+		w.WriteHeader(200)
+		_, _ = io.WriteString(w, "ok\n")
 	case "stall":
 		// answer nothing until the client gave up (it closes the connection) or the target is closed
 		select {
